@@ -35,6 +35,7 @@ var checks = map[string]func(prop, tier string) int{
 	"C12": phchk.Main,
 	"C13": matchchk.MainC13,
 	"C14": livechk.MainC14,
+	"C15": livechk.MainC15,
 	"C16": httpchk.Main,
 	"C17": optchk.Main,
 	"C18": histchk.Main,
